@@ -25,6 +25,9 @@ func ParseMetadata(rawsdp string, video *codec.VideoMeta, audio *codec.AudioMeta
 	}
 
 	for _, media := range sdp.Media {
+		if len(media.Format) == 0 { // 非 RTP 的媒体描述(如 `m=video 0 udp x`)没有格式列表
+			continue
+		}
 		switch media.Type {
 		case "video":
 			video.Codec = media.Format[0].Name
